@@ -251,6 +251,45 @@ mod verif {
         }
     }
 
+    /// C18 multi-frame sentences over TWO consecutive frames from every enabled, not-ended pre-state
+    /// with a timeline: at most one `Ended` event; if the position has reached the total duration at
+    /// the start of a frame that frame reports Ended ("no later than one frame after the position
+    /// reaches the total duration"); an animator reported Ended never moves again.
+    #[kani::proof]
+    #[kani::unwind(4)]
+    #[kani::stub(std::time::Duration::as_secs_f32, as_secs_f32_model)]
+    fn animate_two_frames_lemma() {
+        let mut s = setup();
+        kani::assume(s.animator.enabled && s.tl.is_some());
+        kani::assume(s.animator.state != AnimationState::Ended);
+        let tl = s.tl.clone().unwrap();
+        let p0 = as_secs_f32_model(&s.animator.timeline_position);
+        animate_step(E, &mut s.animator, &s.time, &mut s.targets, &mut s.events);
+        let ended1 = s.animator.state == AnimationState::Ended;
+        let ev1 = s.events.last_state == Some(AnimationState::Ended) && s.events.count == 1;
+        assert!(ended1 == (p0 >= tl.duration));
+        assert!(ended1 == ev1 || !ended1);
+        let pos1 = s.animator.timeline_position;
+        let p1 = as_secs_f32_model(&pos1);
+        let mut events2 = Events::new();
+        let time2 = Time { delta: any_duration() };
+        animate_step(E, &mut s.animator, &time2, &mut s.targets, &mut events2);
+        let ended2 = s.animator.state == AnimationState::Ended;
+        if ended1 {
+            // absorbing: no second announcement, no movement
+            assert!(ended2 && events2.count == 0 && s.animator.timeline_position == pos1);
+        } else {
+            // the position reached the end during frame 1 => frame 2 reports it, exactly once
+            assert!(ended2 == (p1 >= tl.duration));
+            if ended2 {
+                assert!(events2.count == 1 && events2.last_state == Some(AnimationState::Ended));
+            }
+        }
+        if tl.duration == f32::INFINITY {
+            assert!(!ended1 && !ended2);
+        }
+    }
+
     /// C18: Animator API: reset rewinds, new/default/with_timeline start enabled at zero in None.
     #[kani::proof]
     #[kani::unwind(4)]
